@@ -78,6 +78,14 @@ func (r Registry) LookupInterface(name string) (*types.Interface, *types.TypePar
 	return obj.Type().Underlying().(*types.Interface).Complete(), tparams, nil
 }
 
+// LookupType returns the type declared under the given name.
+func (r Registry) LookupType(name string) types.Type {
+	if obj := r.SrcPkg().Scope().Lookup(name); obj != nil {
+		return obj.Type()
+	}
+	return nil
+}
+
 // MethodScope returns a new MethodScope. The names reserved are
 // identifiers the method must still be able to refer to besides the
 // ones its signature and body mention (the type parameters of the mock).
